@@ -66,11 +66,39 @@ def run_cancel(case):
                     evs.append(['res', k, 'ok'])
         return evs
 
+    nwatch = [0]
+
+    def do_submit():
+        k = len(ds)
+        if k in case.get('raw', []):
+            # the caller passes bytes, one of them >= 128 (queue_command accepts bytes as they are)
+            d = proto.queue_command(b'GETINFO c%d \xff\xe9' % k)
+        else:
+            d = proto.queue_command('GETINFO c%d' % k)
+        ds.append(d)
+        if not lazy:
+            watch(d, k)
+
+    def do_watch(beh):
+        # when_disconnected(); the callback notes the request's number and then does what `beh` says
+        w = nwatch[0]
+        nwatch[0] += 1
+
+        def told(_):
+            cur.append(['note', w])
+            if beh == 'nested':
+                do_watch('plain')
+            elif beh == 'submit':
+                do_submit()
+        proto.when_disconnected().addBoth(told)     # the value is a Failure: it travels the errback chain
+
     out = []
     for o in case['ops']:
         cur = []
         try:
             if o[0] == 'submit':
+                do_submit()
+            elif False:
                 k = len(ds)
                 if k in case.get('raw', []):
                     # the caller passes bytes, one of them >= 128 (queue_command accepts bytes as they are)
@@ -82,6 +110,8 @@ def run_cancel(case):
                     watch(d, k)
             elif o[0] == 'cancel':
                 ds[o[1]].cancel()
+            elif o[0] == 'watch':
+                do_watch(o[1])
             elif o[0] == 'reply':
                 proto.dataReceived(b'250 OK\r\n')
             elif o[0] == 'lose':
@@ -89,7 +119,7 @@ def run_cancel(case):
         except Exception as e:                      # an exception of the implementation is an observation
             cur.append(['res', 999999, 'raised:' + type(e).__name__])
         if lazy:
-            cur = poll() + cur
+            cur = [e for e in cur if e[0] == 'note'] + poll() + [e for e in cur if e[0] != 'note']
         out.append(cur)
     for d in ds:
         d.addErrback(lambda f: None)                # no 'Unhandled error in Deferred' noise at collection time
@@ -98,11 +128,15 @@ def run_cancel(case):
 
 def cancel_to_coq(case, obs):
     def op(o):
+        if o[0] == 'watch':
+            return C('QWatch', {'plain': 'WPlain', 'nested': 'WNested', 'submit': 'WSubmit'}[o[1]])
         return {'submit': 'QSubmit', 'reply': 'QReply', 'lose': 'QLose'}.get(o[0]) or C('QCancel', N(o[1]))
 
     def ev(e):
         if e[0] == 'wrote':
             return C('QWrote', N(e[1]))
+        if e[0] == 'note':
+            return C('QNote', N(e[1]))
         o = {'ok': 'QOk', 'disc': 'QDisc', 'cancelled': 'QCancelled'}.get(e[2])
         if o is None:
             return C('QWrote', N(888888))           # an outcome no reference trace contains
@@ -116,12 +150,18 @@ def gen_cancel(rng):
     n = 0            # submitted
     answered = 0
     lost = False
+    lazy = rng.random() < 0.4
+    behs = ['plain', 'nested'] if lazy else ['plain', 'nested', 'submit', 'submit']
     length = rng.randrange(3, 16)
     lose_at = rng.randrange(1, length + 1) if rng.random() < 0.85 else None
     for i in range(length):
         if lose_at == i and not lost:
             ops.append(['lose'])
             lost = True
+            continue
+        if rng.random() < 0.18:
+            # a disconnect-notification request whose callback asks again / submits a command / does nothing
+            ops.append(['watch', rng.choice(behs)])
             continue
         r = rng.random()
         if lost:
@@ -147,7 +187,7 @@ def gen_cancel(rng):
     if lose_at is not None and not lost:
         ops.append(['lose'])
     raw = [k for k in range(n) if rng.random() < 0.15]
-    return {'fam': 'cancel', 'ops': ops, 'lazy': rng.random() < 0.4, 'raw': raw}
+    return {'fam': 'cancel', 'ops': ops, 'lazy': lazy, 'raw': raw}
 
 
 class P(core.Prop):
@@ -165,7 +205,8 @@ class P(core.Prop):
             'every byte offset of 200 sessions. non-trivial = a command outstanding at the loss or submitted '
             'after it. (b) one case in five: command-level histories of 3-16 operations (submit, cancel of any '
             'submitted command - mostly unanswered ones -, whole 250 OK reply while a command awaits one, one '
-            'loss at a random position in 85%, submissions and cancels after it; in 40% the caller attaches nothing '
+            'loss at a random position in 85%, submissions and cancels after it, disconnect-notification requests '
+            'before and after the loss whose callbacks do nothing / ask again / submit a command; in 40% the caller attaches nothing '
             'to the Deferreds and their state is read after every operation; 15% of the commands are passed as bytes '
             'holding non-ASCII bytes); thorough adds every history of '
             'length <= 6 over {submit, cancel 0, cancel 1, reply, lose}')
@@ -268,8 +309,26 @@ class P(core.Prop):
                     out.append({'fam': 'cancel', 'ops': [list(o) for o in t]})
                     if ln <= 5:
                         out.append({'fam': 'cancel', 'ops': [list(o) for o in t], 'lazy': True})
+        alpha2 = [['submit'], ['reply'], ['lose'], ['watch', 'plain'], ['watch', 'nested'], ['watch', 'submit']]
+        for ln in range(2, 6):
+            for t in itertools.product(alpha2, repeat=ln):
+                n = a = 0
+                lost = False
+                good = any(o[0] == 'watch' for o in t)
+                for o in t:
+                    if o[0] == 'submit':
+                        n += 1
+                    elif o[0] == 'reply':
+                        good = good and not lost and a < n
+                        a += 1
+                    elif o[0] == 'lose':
+                        good = good and not lost
+                        lost = True
+                if good:
+                    out.append({'fam': 'cancel', 'ops': [list(o) for o in t]})
         return out, ('the loss at every byte offset (up to 160) of 200 sessions; every causal command-level history '
-                     'of length <= 6 over {submit, cancel 0, cancel 1, reply, lose}')
+                     'of length <= 6 over {submit, cancel 0, cancel 1, reply, lose} and of length <= 5 over '
+                     '{submit, reply, lose, watch plain / nested / submit} with at least one watch')
 
     def run_impl(self, case):
         if case.get('fam') == 'cancel':
@@ -304,7 +363,7 @@ class P(core.Prop):
         ops = case['ops']
         if case.get('fam') == 'cancel':
             for i in range(len(ops) - 1, -1, -1):
-                if ops[i][0] in ('cancel', 'reply') or (ops[i][0] == 'submit' and i == len(ops) - 1):
+                if ops[i][0] in ('cancel', 'reply', 'watch') or (ops[i][0] == 'submit' and i == len(ops) - 1):
                     yield dict(case, ops=ops[:i] + ops[i + 1:])
             return
         k = [i for i, o in enumerate(ops) if o[0] == 'lose'][0]
